@@ -1,4 +1,5 @@
 import HyperModel.Model.Backfill
+import HyperModel.Proofs.ValidityWindow
 /-!
 # C22 Validity-window backfill trusts only the hash-linked ancestry of the sync target
 
@@ -234,17 +235,17 @@ theorem consume_none : ∀ (l : List Block) (s : Sync), s.failed = false →
 /-- Syncer invariant without storage failures: everything the client emitted has been saved
 and given to `AcceptHistorical`, in order. -/
 def SInv (v0 : VW) (s : Sync) : Prop :=
-  s.failed = false ∧ ∃ c, s.client = some c ∧ s.saved = c.emitted ∧
+  s.failed = false ∧ s.fwdDone = false ∧ ∃ c, s.client = some c ∧ s.saved = c.emitted ∧
     s.consumed = c.emitted.length ∧ s.vw = c.emitted.foldl acceptHistorical v0
 
 theorem sync_step_inv (fixed : Bool) {v0 : VW} {s : Sync} (hs : SInv v0 s) (ev : Event) :
     SInv v0 (s.step fixed parse none ev) := by
-  obtain ⟨hf, c, hc, h1, h2, h3⟩ := hs
+  obtain ⟨hf, hfd, c, hc, h1, h2, h3⟩ := hs
   unfold Sync.step
-  simp only [hc]
+  simp only [hc, hfd, Bool.false_eq_true, if_false]
   obtain ⟨new, hn⟩ := emitted_grows_step (parse := parse) fixed c ev
-  rw [consume_none _ { s with client := some (c.step fixed parse ev) } hf]
-  refine ⟨hf, c.step fixed parse ev, rfl, ?_, ?_, ?_⟩
+  rw [consume_none _ { s with client := some (c.step fixed parse ev), pendingMin := none, fwdDone := false } hf]
+  refine ⟨hf, rfl, c.step fixed parse ev, rfl, ?_, ?_, ?_⟩
   · simp [hn, h1, h2]
   · simp [hn, h2]
   · simp [hn, h2, h3, List.foldl_append]
@@ -264,14 +265,15 @@ ancestor. Nothing unparsable, unlinked or out of order is ever recorded or track
 theorem tracked_equals_ancestor_txs (hl : Linked start.parent anc) (hinj : IdInj parse anc)
     (hgen : (lastOf start anc).height = 0) (v0 : VW) (min : Int) (evs : List Event) :
     let s0 : Sync := { vw := v0, saved := [], failed := false, consumed := 0,
-                       client := some (Client.init start min) }
+                       client := some (Client.init start min), oldest := start,
+                       fwdDone := false, pendingMin := none }
     let s := Sync.run true parse none s0 evs
     s.saved <+: anc ∧
     ∀ j, s.vw.seen.contains j = true ↔
       v0.seen.contains j = true ∨ ∃ b ∈ s.saved, ∃ t ∈ b.txs, t.id = j ∧ t.expiry ≠ 0 := by
   intro s0 s
-  have h0 : SInv v0 s0 := ⟨rfl, Client.init start min, rfl, rfl, rfl, rfl⟩
-  obtain ⟨_, c, hc, h1, _, h3⟩ := sync_run_inv (parse := parse) true evs s0 h0
+  have h0 : SInv v0 s0 := ⟨rfl, rfl, Client.init start min, rfl, rfl, rfl, rfl⟩
+  obtain ⟨_, _, c, hc, h1, _, h3⟩ := sync_run_inv (parse := parse) true evs s0 h0
   -- the syncer's client state is the client run on the same events
   have hrun : ∀ (evs : List Event) (s : Sync) (c : Client), SInv v0 s → s.client = some c →
       (Sync.run true parse none s evs).client = some (Client.run true parse c evs) := by
@@ -282,11 +284,11 @@ theorem tracked_equals_ancestor_txs (hl : Linked start.parent anc) (hinj : IdInj
       intro s c hs hc
       have hs' := sync_step_inv (parse := parse) true hs ev
       refine ih _ _ hs' ?_
-      obtain ⟨hf, c0, hc0, _⟩ := hs
+      obtain ⟨hf, hfd, c0, hc0, _⟩ := hs
       rw [hc] at hc0; cases hc0
       unfold Sync.step
-      simp only [hc]
-      rw [consume_none _ { s with client := some (c.step true parse ev) } hf]
+      simp only [hc, hfd, Bool.false_eq_true, if_false]
+      rw [consume_none _ { s with client := some (c.step true parse ev), pendingMin := none, fwdDone := false } hf]
   have hcr := hrun evs s0 _ h0 rfl
   rw [hc] at hcr
   cases hcr
@@ -454,6 +456,139 @@ theorem c22_counterexample (g : Block) (hparse : ∀ r b, parse r = some b → b
       exact ih _ hl (hev ev List.mem_cons_self) hc he (fun e he' => hev e (List.mem_cons_of_mem _ he'))
   intro evs hev
   exact key evs _ rfl h0 rfl rfl hev
+
+/-! ### the forward path (`UpdateSyncTarget`)
+
+While the backward fetch is slow or failing, consensus keeps delivering new targets; the syncer
+`Accept`s each and declares the window complete (`Close()`: done + cancel of the fetch) as soon
+as `target.ts - oldestBlock.ts > W` (`forwardRule`, strict), where `oldestBlock` is the oldest
+block `populate` found locally at `Start`. Setting as in C09 (`WF U W`). -/
+
+section forward
+open HyperModel.Proofs.ValidityWindow
+variable {U : Universe} {W : Int}
+
+/-- States of the window under `Start(target0)` followed by any interleaving of forward targets
+(each extending the previous one) and backfilled historical blocks. `oldest` is
+`validityBlocks[0]` of the `populate` at `Start`. -/
+inductive Fwd (U : Universe) (W : Int) (oldest : Block) : VW → Block → Prop
+  | start {idx : Index} {fuel : Nat} {t0 : Block} {v0 v : VW} {chron : List Block} {full : Bool} :
+      (∀ i b, idx i = some b → U i = some b) → InU U t0 → Prov U v0.seen →
+      populate idx W v0 fuel t0 = (v, chron, full) → chron.head? = some oldest →
+      Fwd U W oldest v t0
+  | target {v : VW} {t t' : Block} :
+      Fwd U W oldest v t → InU U t' → U t'.parent = some t → Fwd U W oldest (accept v t') t'
+  | hist {v : VW} {t b : Block} :
+      Fwd U W oldest v t → InU U b → Fwd U W oldest (acceptHistorical v b) t
+
+/-- Invariant of the forward path: everything strictly newer than `oldest` on the target's
+chain is covered. -/
+structure FInv (U : Universe) (oldest : Block) (v : VW) (t : Block) : Prop where
+  height : v.lastAccepted = t.height
+  prov : Prov U v.seen
+  anc : Anc U oldest t
+  inU : InU U t
+  cover : ∀ A, Anc U A t → oldest.ts < A.ts → ∀ x ∈ A.txs, t.ts ≤ x.expiry →
+    v.seen.contains x.id = true
+
+theorem fwd_inv (h : WF U W) {oldest : Block} {v : VW} {t : Block} (hf : Fwd U W oldest v t) :
+    FInv U oldest v t := by
+  induction hf with
+  | @start idx fuel t0 v0 v chron full hidx hT hp0 hpop hhead =>
+    unfold populate at hpop
+    have e := Prod.mk.inj hpop
+    have e2 := Prod.mk.inj e.2
+    obtain ⟨pre, hch, hanc, hlow, hcov⟩ := populateWalk_chain h hidx (oldestAllowed W t0.ts) fuel t0 [t0] _ _ hT
+      (rfl : populateWalk idx (oldestAllowed W t0.ts) fuel t0 [t0] = (_, _))
+    rw [e2.1] at hch
+    have hold : pre.head?.getD t0 = oldest := by
+      rw [hch] at hhead
+      cases pre with
+      | nil => simpa using hhead
+      | cons x xs => simpa using hhead
+    rw [hold] at hlow hcov
+    have hall : ∀ b ∈ chron, InU U b ∧ b.ts ≤ t0.ts := by
+      intro b hb
+      rw [hch] at hb
+      rcases List.mem_append.mp hb with hb | hb
+      · exact ⟨Anc.inU h (hanc b hb) hT, (Anc.le h (hanc b hb) hT).2⟩
+      · have : b = t0 := by simpa using hb
+        subst this; exact ⟨hT, Int.le_refl _⟩
+    have hv := e.1
+    rw [e2.1] at hv
+    obtain ⟨P, _, C⟩ := fold_accept h t0.ts chron v0 hp0 hall
+    rw [hv] at P C
+    have hlast : v.lastAccepted = t0.height := by
+      rw [← hv, hch]; exact fold_accept_last pre t0 v0
+    refine ⟨hlast, P, hlow, hT, fun A hA hlt x hx hexp => ?_⟩
+    have hoU := Anc.inU h hlow hT
+    have hmem : A ∈ chron := by
+      rw [hch]
+      rcases hcov A hA with rfl | hm | hlo
+      · simp
+      · exact List.mem_append.mpr (Or.inl hm)
+      · have := (Anc.le h hlo hoU).2; omega
+    exact C A hmem x hx hexp
+  | @target v t t' _ hb hpar ih =>
+    have hlk := h.link t' t hb hpar
+    refine ⟨rfl, prov_accept ih.prov hb, Anc.step hpar ih.anc, hb, fun A hA hlt x hx hexp => ?_⟩
+    cases hA with
+    | refl =>
+      obtain ⟨e, hg⟩ := addAll_get_of_mem (s := v.seen.setMin t'.ts) hx (h.txs_valid t' hb x hx).2.2
+      exact contains_of_get hg
+    | step hp2 hA2 =>
+      rw [hpar] at hp2; cases hp2
+      have hAU := Anc.inU h hA2 ih.inU
+      obtain ⟨e, hg⟩ := get_of_contains (ih.cover A hA2 hlt x hx (by omega))
+      have he : e = x.expiry := stored_eq h ih.prov hAU hx hg
+      exact contains_of_get (addAll_get_of_some (setMin_get.mpr ⟨hg, by omega⟩))
+  | @hist v t b _ hb ih =>
+    refine ⟨ih.height, prov_addAll ih.prov hb, ih.anc, ih.inU, fun A hA hlt x hx hexp => ?_⟩
+    obtain ⟨e, hg⟩ := get_of_contains (ih.cover A hA hlt x hx hexp)
+    exact contains_of_get (addAll_get_of_some hg)
+
+/-- **Forward completion is sound.** When the syncer's forward rule fires for target `t`
+(`t.ts - oldestBlock.ts > W`), the window state satisfies the full C09 invariant at `t`: every
+tx of `t` or of any ancestor of `t` that a later block could still include (`t.ts ≤ expiry`,
+hence ancestor timestamp `≥ t.ts − W`) is tracked — so cancelling the backfill is safe. -/
+theorem forward_done_implies_window_covered (h : WF U W) {oldest : Block} {v : VW} {t : Block}
+    (hf : Fwd U W oldest v t) (hd : forwardRule W oldest t = true) : SeenInv U v t := by
+  have inv := fwd_inv h hf
+  have hd' : t.ts - oldest.ts > W := by simpa [forwardRule] using hd
+  refine ⟨inv.height, fun A hA x hx hexp => ?_, inv.prov⟩
+  have hAU := Anc.inU h hA inv.inU
+  have hv := h.txs_valid A hAU x hx
+  exact inv.cover A hA (by omega) x hx hexp
+
+/-- `UpdateSyncTarget` in the model sets done exactly by the strict rule. -/
+theorem target_done_iff (s : Sync) (t : Block) (hs : s.fwdDone = false) :
+    (s.target W t).fwdDone = true ↔ t.ts - s.oldest.ts > W := by
+  unfold Sync.target
+  by_cases hr : forwardRule W s.oldest t = true
+  · simp [hr]; simpa [forwardRule] using hr
+  · simp [hr, hs]; simpa [forwardRule] using hr
+
+end forward
+
+/-! Counterexample for the non-strict variant of the forward rule
+(`oldestBlock.ts ≤ target.ts − W`): `X` and `O` share timestamp 5; the node holds only `O` and
+`T0`, so `oldestBlock = O`; the target `T1` has timestamp `15 = O.ts + W`. The non-strict rule
+fires, the strict one does not, and tx 7 of `X` (expiry 15, still includable in a block at
+time 15) is not tracked. -/
+def fxX : Block := { id := 1, parent := 0, ts := 5, height := 1, txs := [⟨7, 15⟩] }
+def fxO : Block := { id := 2, parent := 1, ts := 5, height := 2, txs := [] }
+def fxT0 : Block := { id := 3, parent := 2, ts := 6, height := 3, txs := [] }
+def fxT1 : Block := { id := 4, parent := 3, ts := 15, height := 4, txs := [] }
+def fxIdx : Index := fun i => if i = 2 then some fxO else if i = 3 then some fxT0 else none
+
+theorem forward_nonstrict_counterexample :
+    let r := populate fxIdx 10 VW.fresh 5 fxT0
+    r.2.1.head? = some fxO ∧ r.2.2 = false ∧
+    decide (fxO.ts ≤ fxT1.ts - 10) = true ∧          -- the non-strict rule says "done"
+    forwardRule 10 fxO fxT1 = false ∧                 -- the code's strict rule does not
+    (fxT1.ts ≤ 15 ∧ (15 : Int) ≤ fxT1.ts + 10) ∧      -- tx 7 would pass VerifyTimestamp at T1.ts
+    (accept r.1 fxT1).seen.contains 7 = false := by   -- but it is not tracked
+  refine ⟨by decide, by decide, by decide, by decide, by decide, by decide⟩
 
 /-! Non-vacuity of the hypotheses (a 2-block ancestry ending in genesis, ids injective). -/
 example : ∃ (start : Block) (anc : List Block) (parse : Raw → Option Block),
